@@ -3,7 +3,7 @@
    did; wf_grammar says rule heads are nonterminals and right-hand sides consist of symbols.  Definitions only
    (nothing here changes the extracted reference); the theorems are in LalrLoop_proofs.v / LalrFinals_proofs.v. *)
 From Coq Require Import List ZArith Bool Arith.
-From TM Require Import Gram.Cfg Gram.LalrRef.
+From TM Require Import Gram.Cfg Gram.LalrRef Gram.LalrSpec.
 Import ListNotations.
 Local Open Scope Z_scope.
 
@@ -21,3 +21,11 @@ Definition wf_grammar (g : grammar) : bool :=
   (0 <=? g_terms g) &&
   forallb (fun r => (g_terms g <=? r_lhs r) && (r_lhs r <? g_terms g + g_nonterms g) &&
                     forallb (fun s => (0 <=? s) && (s <? nsyms g)) (r_rhs r)) (g_rules g).
+
+(* the part of the certificate LalrCert.ref_cert that is still evaluated per grammar once the automaton clauses
+   (aut_cert) and the nullable clause are replaced by theorems (LalrRef_proofs.v) *)
+Definition ref_cert_light (g : grammar) (fuel : nat) : bool :=
+  let a := fst (build_automaton g fuel) in
+  wf_grammar g && ref_done g fuel &&
+  first_closed g (nullable_set g) (first_sets g) &&
+  la_stable g a (nullable_set g) (first_sets g) (lalr_la g a fuel).
